@@ -91,7 +91,7 @@ type c04Case struct {
 
 const c04Rule = "case = protocol (ipfix | nf9) + 2..6 (exporter address, template id) slots (IPv4 4-byte, IPv4-mapped, IPv6; ids shared across exporters; adversarial pairs that collide on the cache's " +
 	"full 32-bit FNV-1 hash, share a shard, or share a shard and have the same text when address and id are written without separator; found by searching ~1.5M keys) + 2..30 operations: announce (alone or with data in the same message), re-announce with a different definition " +
-	"(same record length with other elements, same elements with other field lengths, a fresh template, back to a definition the id had before, or fields of length zero: then data naming the id must yield nothing), field-less template records ([id,0] and [2,0], alone or with re-announcements behind them in the same set: a re-announced id has the new definition, an id the record does not concern is untouched, the named id decodes as before or yields nothing plus an error), drawn export times, malformed messages in which a variable-length record runs past the end of its set over octets that would read as a template set (ipfix: the slot keeps the template announced last), data under the model's current template, data for a never-announced slot, peer Get (ipfix), and messages mixing data sets and (re-)announcements of several ids of one exporter in any order (in a quarter of the multi-template messages 13..40 template records, the same ids announced over and over: the last record of an id counts), in a quarter of them with 1..80 data sets of never-announced templates in front of some of the sets; " +
+	"(same record length with other elements, same elements with other field lengths, a fresh template, a twin of another key's current definition — identical, or the same elements with other lengths —, back to a definition the id had before, or fields of length zero: then data naming the id must yield nothing), field-less template records ([id,0] and [2,0], alone or with re-announcements behind them in the same set: a re-announced id has the new definition, an id the record does not concern is untouched, the named id decodes as before or yields nothing plus an error), drawn export times, malformed messages in which a variable-length record runs past the end of its set over octets that would read as a template set (ipfix: the slot keeps the template announced last), data under the model's current template, data for a never-announced slot, peer Get (ipfix), and messages mixing data sets and (re-)announcements of several ids of one exporter in any order (in a quarter of the multi-template messages 13..40 template records, the same ids announced over and over: the last record of an id counts), in a quarter of them with 1..80 data sets of never-announced templates in front of some of the sets; " +
 	"invariant after every step = decode equals the reference expectation under the model's template for exactly that slot, unannounced slots give an 'unknown template' error and no records, peer Get returns the model's template or 'not available'; " +
 	"non-trivial = a re-announcement followed by data, or >= 2 exporters using one id with different definitions, or a colliding pair in use; distinct by hash"
 
@@ -501,6 +501,30 @@ func genC04(t *rapid.T, proto string, env *wire.GenEnv, opts ...string) c04Case 
 						}
 					}
 				}
+			case len(twinsOf(model, slot)) > 0 && rapid.IntRange(0, 3).Draw(t, "twin") == 0:
+				// a twin of another key's current definition: the very same definition under this key, or the same elements
+				// with other field lengths (two interface types of one vendor): keys are independent however alike their
+				// templates are, now and after one of them changes
+				o := twinsOf(model, slot)
+				src := model[o[rapid.IntRange(0, len(o)-1).Draw(t, "twinof")]]
+				if rapid.Bool().Draw(t, "twinexact") {
+					tp = *src
+				} else {
+					tp = redefineOtherLengths(t, src)
+				}
+				tp.ID = c.Slots[slot].ID
+				if proto == "nf9" {
+					for i := range tp.Fields {
+						if tp.Fields[i].Len == wire.VarLen {
+							tp.Fields[i].Len = 3
+						}
+					}
+					for i := range tp.Scope {
+						if tp.Scope[i].Len == wire.VarLen {
+							tp.Scope[i].Len = 3
+						}
+					}
+				}
 			default:
 				tp = env.GenTemplate(t, c.Slots[slot].ID)
 			}
@@ -537,6 +561,18 @@ func genC04(t *rapid.T, proto string, env *wire.GenEnv, opts ...string) c04Case 
 		}
 	}
 	return c
+}
+
+// twinsOf lists the other slots that have a template with records of at least one octet at the moment.
+func twinsOf(model map[int]*wire.Template, slot int) []int {
+	var out []int
+	for j, tp := range model {
+		if j != slot && tp != nil && tp.MinRecordLen() > 0 {
+			out = append(out, j)
+		}
+	}
+	sort.Ints(out)
+	return out
 }
 
 func redefineOtherLengths(t *rapid.T, cur *wire.Template) wire.Template {
@@ -1087,9 +1123,9 @@ func TestC04Aged(t *testing.T) {
 	if !strings.Contains(col.Rule, "aged stage") {
 		col.Rule += " | aged stage (a few histories per shard): the same histories with 1..3 pauses of 20 ms .. 3.1 s (at most 4 s in all) before drawn operations — the model does not know time: the latest announced definition counts however long ago it was announced"
 	}
-	n := 4
+	n := 10
 	if os.Getenv("VERIF_TIER") == "thorough" {
-		n = 40
+		n = 60
 	}
 	if s := os.Getenv("VERIF_AGED_CASES"); s != "" {
 		if k, err := strconv.Atoi(s); err == nil && k >= 0 {
@@ -1103,12 +1139,23 @@ func TestC04Aged(t *testing.T) {
 		c.Pauses = map[int]int{}
 		total := 0
 		for k, np := 0, rapid.IntRange(1, 3).Draw(t, "npauses"); k < np; k++ {
-			ms := rapid.SampledFrom([]int{20, 60, 150, 400, 1100, 1600, 2100, 3100}).Draw(t, "pausems")
+			ms := rapid.SampledFrom([]int{60, 400, 1100, 1100, 1600, 2100, 2100, 3100}).Draw(t, "pausems")
 			if total+ms > 4000 {
 				continue
 			}
 			total += ms
-			c.Pauses[rapid.IntRange(1, len(c.Ops)-1).Draw(t, "pauseat")] += ms
+			// time that passes shows in what is decoded afterwards: mostly in front of a data operation
+			var dataAt []int
+			for i := 1; i < len(c.Ops); i++ {
+				if c.Ops[i].Op == "data" || c.Ops[i].Op == "mixed" {
+					dataAt = append(dataAt, i)
+				}
+			}
+			at := rapid.IntRange(1, len(c.Ops)-1).Draw(t, "pauseat")
+			if len(dataAt) > 0 && rapid.IntRange(0, 3).Draw(t, "pausebeforedata") > 0 {
+				at = dataAt[rapid.IntRange(0, len(dataAt)-1).Draw(t, "pausedata")]
+			}
+			c.Pauses[at] += ms
 		}
 		return c
 	})
